@@ -57,8 +57,12 @@ let stateless (t : string array) : string option =
   | "HEXALL" ->
       let h = hex_in t.(1) in
       let rt = match hex_from_str (hex_print h) with Some x -> hex_out x | None -> "err" in
+      (* from_str(print(h)) == h and h == from_str(print(h)), with the type's own equality *)
+      let rteq = match hex_from_str (hex_print h) with
+        | Some x -> (if hex_eqb x h then "1" else "0") ^ (if hex_eqb h x then "1" else "0")
+        | None -> "err" in
       Some
-        (Printf.sprintf "len=%d bytes=%s print=%s empty=%d vec=%s i64=%s f64=%s rt=%s"
+        (Printf.sprintf "len=%d bytes=%s print=%s empty=%d vec=%s i64=%s f64=%s rt=%s rteq=%s"
            (int_of_nat (hex_len h))
            (hex_of_bytes (bytes h))
            (text_out (hex_print h))
@@ -68,7 +72,7 @@ let stateless (t : string array) : string option =
            (match hex_to_f64_bits h with
             | Some w -> let s = hex_of_n w in String.make (16 - String.length s) '0' ^ s
             | None -> "err")
-           rt)
+           rt rteq)
   | "HEXIDX" ->
       let h = hex_in t.(1) in
       Some (dec_of_n (unwrap (hex_index h (usize_of_string t.(2)))))
